@@ -94,7 +94,6 @@ impl Help for RawCommand<'_> {
         _p9: &mut crate::writer::Writer<'_, W, E>,
     ) -> Result<(), E> {
         // noop
-//@ proof { assert(_p9.evs().subrange(0, _p9.evs().len() as int) =~= _p9.evs()); }
         Ok(())
     }
 
@@ -109,7 +108,6 @@ impl Help for RawCommand<'_> {
         _p12: &mut crate::writer::Writer<'_, W, E>,
     ) -> Result<(), HelpError<E>> {
         // noop
-//@ proof { assert(_p12.evs().subrange(0, _p12.evs().len() as int) =~= _p12.evs()); }
         Err(HelpError::UnknownCommand)
     }
 }
